@@ -539,6 +539,40 @@ def check(rep, tier, seed):
             rep.violation({"check": "process-died", "family": "deep-nesting", "how": ev["how"], "via": mode, "shape": shape,
                            "depth_class": ">=1e5" if depth >= 10 ** 5 else "<1e5"},
                           {"mode": mode, "shape": shape, "depth": depth, "stderr": ev["stderr"][-600:]})
+    # ---- (d) thorough only: the quick workloads of the model-based properties replayed on the sanitized build -----------
+    # Each module's check runs twice into scratch reports: on the build it asks for, and with "hooks" replaced by asan-rz.
+    # A violation signature that appears only on the sanitized build (a sanitizer report, a crash) is a C01 violation.
+    if tier != "quick":
+        import importlib
+        import json as _json
+        from .. import report as _report
+        for mname in ("c03", "c04", "c06", "c07", "c12", "c14", "c15", "c17", "c18", "c19", "c20", "c08"):
+            try:
+                mod = importlib.import_module("vf.props." + mname)
+            except ImportError:
+                continue
+            sigs = {}
+            for label, ov in (("hooks", {}), ("asan-rz", {"hooks": "asan-rz"})):
+                sh = _report.Report(mname.upper(), "quick", seed)
+                B.VARIANT_OVERRIDE.clear()
+                B.VARIANT_OVERRIDE.update(ov)
+                try:
+                    mod.check(sh, "quick", seed)
+                except B.HarnessError as ex:
+                    rep.inconc("replay-harness-error", "%s %s: %s" % (mname, label, str(ex)[:200]))
+                finally:
+                    B.VARIANT_OVERRIDE.clear()
+                sigs[label] = {}
+                for sg, wit in sh.violations:
+                    sigs[label].setdefault(_json.dumps(sg, sort_keys=True), wit)
+                rep.case(("replay", mname, label), n=max(1, sh.evaluations))
+                rep.count("replayed_cases_" + label, sh.evaluations)
+            for key, wit in sigs["asan-rz"].items():
+                if key not in sigs["hooks"]:
+                    sg = _json.loads(key)
+                    rep.violation({"check": "replay-on-sanitized-build", "workload": mname,
+                                   "mode": sg.get("mode") or sg.get("kind") or sg.get("check")},
+                                  {"workload_signature": sg, "witness": wit})
     rep.extra.update(outcomes=outcomes, probe_evaluations=probes, r7rs_names=len(r7names), vm_primitives=len(ops),
                      pool_values=len(POOL), item_files=len(files),
                      sanitizer="ASan + in-heap red zones (SEXP_GC_PAD=32, poisoned free chunks) + UBSan bounds,vla-bound,return,unreachable,null")
